@@ -3,24 +3,29 @@
    Statements over Sys/EndToEnd.v: a composition over an ASSUMED raft contract.  [M : Sys] is any
    system: any deterministic machine [step] (what C01_model_deterministic provides for the IRC
    model), any committed log [L M], any set of nodes each having applied a prefix of it, any set
-   of sessions with any number of POST requests and retries.  The named hypotheses:
+   of sessions with any number of POST requests and retries.  The named hypotheses ([Contract]):
 
      NodeStateIsReplay      a node's state/stored output = plain replay of the prefix it applied,
                             however it got there (snapshot, restore, restart): C02_state,
                             C02_output, C02_exact; resume across nodes/restarts: C04_exactly_once
-     SeenLeLen, ProposalAppends, ProposalEntry, LogFromRequests
+     ProposalAppends, ProposalEntry, LogFromRequests
                             raft: one totally ordered log, append-only, nothing invented
      AckImpliesCommitted    api.go applyMessageWait: HTTP 200 only after the raft future
                             succeeded, or on the dedup path
-     HandlerDedup           postmessage.go proposes only when the marker differs (C10_handler_propose)
      MarkerInit/Set/Only    the marker rule (C10_marker, C10_marker_inv)
+     ApplySkip              statemachine.go since /repo 92a4e2e (repair of D14): a client entry whose
+                            non-zero client message id equals the session's marker is skipped by
+                            every node (no state change, no output)
      CmidNonzero, ClientNoReturn
                             client protocol: non-zero ids, retries of a message are contiguous
-     EarlierRequestsSettled timing: a client sends a request only when what its earlier requests
-                            proposed is committed or never will be
-     HandlerCaughtUp        timing (D14): the node answering a retry has applied everything
-                            committed before the retry arrived — NOT enforced by the code; without
-                            it the statement is false (C05_refuted_without_caught_up).
+     EarlierMessagesSettled timing, NOT enforced by the code: when a client sends a request for a
+                            NEW message, what its requests for EARLIER messages proposed is
+                            committed or never will be.
+
+   No longer needed since ApplySkip: HandlerCaughtUp (the node answering a retry has applied
+   everything committed before the retry arrived — D14), HandlerDedup, SeenLeLen, and the part of
+   EarlierRequestsSettled that spoke about retries of the SAME message.  The log MAY now hold a post
+   twice (C05_two_copies_processed_once); exactly one copy is processed.
 
    What cannot be exhibited by these theorems or by the single-node harness: raft's own safety,
    fsync/LevelDB durability under power loss, network partitions, timing of leader changes. *)
@@ -44,22 +49,32 @@ Theorem C05_ack_durable : forall M : Sys,
 Proof. exact composition_ack_durable. Qed.
 Print Assumptions C05_ack_durable.
 
-(* under HandlerCaughtUp: each acknowledged post occurs exactly once in L, posts of a session
-   occur in the order the client sent them, and every node that has reached the entry serves its
-   output exactly once, at the place the log determines *)
-Theorem C05_exactly_once : forall M : Sys, ContractWithoutCaughtUp M -> HandlerCaughtUp M ->
-  ExactlyOnceInLog M /\ SenderOrder M /\ DeliveredOnce M.
+(* each acknowledged post is PROCESSED exactly once: one copy in L finds a different marker, every
+   other copy lies behind it and is skipped by every node; all copies of an earlier message of a
+   session precede all copies of a later one; and every node that has reached the processed copy
+   serves its output exactly once, at the place the log determines.  No HandlerCaughtUp. *)
+Theorem C05_exactly_once : forall M : Sys, Contract M ->
+  ProcessedOnce M /\ SenderOrder M /\ DeliveredOnce M.
 Proof. exact composition_exactly_once. Qed.
 Print Assumptions C05_exactly_once.
 
-(* D14: all other hypotheses hold, the retry reaches a leader that lags its own log, and the
-   acknowledged post is in the log twice *)
-Theorem C05_refuted_without_caught_up : exists M : Sys,
-  ContractWithoutCaughtUp M /\ ~ HandlerCaughtUp M /\ TwoCopies M /\ ~ ExactlyOnceInLog M.
-Proof. exact refuted_without_caught_up. Qed.
-Print Assumptions C05_refuted_without_caught_up.
+(* D14 after the repair: the hypotheses are satisfiable by a history whose log holds an acknowledged
+   post TWICE (the retry reached a leader that lagged its own log) — which is why the apply rule is
+   needed — and the conclusions hold of it *)
+Theorem C05_two_copies_processed_once : exists M : Sys, Contract M /\ TwoCopies M /\
+  ProcessedOnce M /\ SenderOrder M /\ DeliveredOnce M.
+Proof. exact two_copies_processed_once. Qed.
+Print Assumptions C05_two_copies_processed_once.
 
-(* the hypotheses of C05_exactly_once are satisfiable (a tiny concrete machine, two nodes) *)
-Theorem C05_hypotheses_satisfiable : ContractWithoutCaughtUp tiny_ok /\ HandlerCaughtUp tiny_ok.
-Proof. exact tiny_ok_contract. Qed.
+(* D14 before the repair: the same history on the machine without the apply rule satisfies every other
+   hypothesis and both copies are processed *)
+Theorem C05_refuted_without_apply_skip : exists M : Sys,
+  ContractWithoutApplySkip M /\ TwoCopies M /\ ~ ProcessedOnce M.
+Proof. exact refuted_without_apply_skip. Qed.
+Print Assumptions C05_refuted_without_apply_skip.
+
+(* the hypotheses of C05_exactly_once are satisfiable (tiny concrete machines, two nodes):
+   an orderly history, and the D14 history with a duplicated log entry *)
+Theorem C05_hypotheses_satisfiable : Contract tiny_ok /\ Contract tiny_lagging /\ TwoCopies tiny_lagging.
+Proof. exact hypotheses_satisfiable. Qed.
 Print Assumptions C05_hypotheses_satisfiable.
